@@ -23,7 +23,7 @@ inductive HEv where
   deriving Repr, DecidableEq
 
 inductive HRes where
-  | ok (n : Option Nat) | err (k : Nat) | idle | nohandle | blocked | panic | skipped
+  | ok (n : Option Nat) | err (k : Nat) | idle | nohandle | blocked | panic | skipped | slow
   | stats (sub drn q pan : Nat)
   | sinkStats (a b c d : Nat)
   deriving Repr, DecidableEq
@@ -90,6 +90,7 @@ def ckEvents (hasHandler : Bool) (expectH : Option (Nat × String)) : CkSt → L
 
 def ckOp (cap : Option Nat) (hasHandler : Bool) (s : CkSt) (op : HOp) (o : HObs) : Ck CkSt := do
   if o.res = .panic then viol "C20" "an operation of the queuing sink panicked" else
+  if o.res = .slow then viol "C09" "dropping a handle waited (more than 100 ms) instead of returning at once" else
   if o.res = .blocked then
     (match op with
      | .drop _ => viol "C09" "dropping a handle blocked"
